@@ -696,40 +696,16 @@ func c17FeedsCond(call *ssa.Call, derived map[ssa.Value]bool) bool {
 // c17CharData: attachments under `case xml.CharData`.
 func c17CharData(e *c04Env, r *c04Reader, m *ssa.Function, ta *ssa.TypeAssert) {
 	c := e.c
-	// region: blocks dominated by the ok-edge target (comma-ok form) or everything after the assert
-	var region func(b *ssa.BasicBlock) bool
-	var tokVal ssa.Value = ta
-	if ta.CommaOk {
-		var okIf *ssa.If
-		for _, u := range core.Referrers(ta) {
-			ex, isEx := u.(*ssa.Extract)
-			if !isEx {
-				continue
-			}
-			if ex.Index == 0 {
-				tokVal = ex
-			}
-			if ex.Index == 1 {
-				for _, u2 := range core.Referrers(ex) {
-					if ifi, isIf := u2.(*ssa.If); isIf {
-						okIf = ifi
-					}
-				}
-			}
-		}
-		if okIf == nil {
-			c.Unknown("R17e", core.FuncKey(m)+" case encoding/xml.CharData", core.InstrPos(ta), "cannot find the branch on the type test")
-			return
-		}
-		entry := okIf.Block().Succs[0]
-		region = func(b *ssa.BasicBlock) bool { return entry.Dominates(b) && len(entry.Preds) == 1 }
-	} else {
-		region = func(b *ssa.BasicBlock) bool { return ta.Block().Dominates(b) }
+	entry := c04TypeCaseEntry(ta)
+	if entry == nil {
+		c.Unknown("R17e", core.FuncKey(m)+" case encoding/xml.CharData", core.InstrPos(ta), "cannot find the branch on the type test")
+		return
 	}
-	_, derived := c17ContentDerived(tokVal)
-	alias, _ := c17ContentDerived(tokVal)
-	dependsOnHolder := func(v ssa.Value) bool {
-		return c04DependsOn(v, func(x ssa.Value) bool { return c04IsLoadOf(x, r.holder) })
+	var tokVal ssa.Value = ta
+	for _, u := range core.Referrers(ta) {
+		if ex, ok := u.(*ssa.Extract); ok && ex.Index == 0 {
+			tokVal = ex
+		}
 	}
 	// does the reader remove non-candidate nodes anywhere?
 	sweeps := false
@@ -745,76 +721,95 @@ func c17CharData(e *c04Env, r *c04Reader, m *ssa.Function, ta *ssa.TypeAssert) {
 			sweeps = true
 		}
 	}
-	cd := e.cd(m)
-	for _, b := range m.Blocks {
-		if !region(b) {
-			continue
+	// The case body is walked with helper methods seen through. guarded: the path passed a branch whose condition
+	// depends on the token's content or on the candidate holder.
+	const guarded = 1
+	via := func(w *c04Walker, in ssa.Instruction) string {
+		if len(w.stack) > 0 {
+			return c04CalleeKey(w.stack[0])
 		}
-		for _, in := range b.Instrs {
-			if !e.attachSite(r, in) && !e.advanceSite(r, in) {
-				continue
-			}
-			ci, _ := in.(ssa.CallInstruction)
-			via := "store"
-			if ci != nil {
-				via = c04CalleeKey(ci)
-			}
-			key := core.FuncKey(m) + " attaches encoding/xml.CharData text via " + via
-			guard := ""
-			for _, ed := range cd.controlling(b) {
-				ifi := ed.ifInstr()
-				if ifi == nil || !region(ed.from) {
-					continue
-				}
-				if derived[ifi.Cond] {
-					guard = "condition on the token's content"
-				} else if dependsOnHolder(ifi.Cond) {
-					guard = "condition on the candidate holder " + r.holder.Name()
-				}
-			}
-			// guard inside the callee: every AddChild there is controlled by a condition on the parameter that
-			// receives the token text, or on the holder
-			if guard == "" && ci != nil {
-				if cf := ci.Common().StaticCallee(); cf != nil && cf.Blocks != nil && cf != e.addChild {
-					all, any := true, false
-					pd := map[ssa.Value]bool{}
-					for i, a := range ci.Common().Args {
-						if (alias[a] || derived[a]) && i < len(cf.Params) {
-							_, d := c17ContentDerived(cf.Params[i])
-							for k := range d {
-								pd[k] = true
-							}
-						}
-					}
-					ccd := e.cd(cf)
-					for _, cj := range core.Calls(cf) {
-						if cj.Common().StaticCallee() != e.addChild {
-							continue
-						}
-						any = true
-						g := false
-						for _, ed := range ccd.controlling(cj.Block()) {
-							if ifi := ed.ifInstr(); ifi != nil && (pd[ifi.Cond] || dependsOnHolder(ifi.Cond)) {
-								g = true
-							}
-						}
-						if !g {
-							all = false
-						}
-					}
-					if any && all {
-						guard = "guard inside " + core.FuncKey(cf)
-					}
-				}
-			}
-			switch {
-			case guard != "":
-				c.OK("R17e", key, core.InstrPos(in), "attachment guarded by a "+guard)
-			case sweeps:
-				c.OK("R17e", key, core.InstrPos(in), "the reader removes non-candidate nodes elsewhere")
-			default:
-				c.Bad("R17e", key, core.InstrPos(in), "character data is attached to the cursor unconditionally (no condition on the text or on the candidate holder, and the reader never removes non-candidate nodes): whitespace between records accumulates as text children of their parent")
-			}
+		if ci, ok := in.(ssa.CallInstruction); ok {
+			return c04CalleeKey(ci)
 		}
+		return "store"
+	}
+	okSites := map[string]token.Pos{}
+	okHow := map[string]string{}
+	failVia := ""
+	judge := func(w *c04Walker, in ssa.Instruction, st int) (int, int) {
+		v := via(w, in)
+		switch {
+		case st&guarded != 0:
+			if _, dup := okSites[v]; !dup {
+				okSites[v], okHow[v] = core.InstrPos(in), "attachment guarded by a condition on the token's content or on the candidate holder "+r.holder.Name()
+			}
+			return st, c04Stop
+		case sweeps:
+			if _, dup := okSites[v]; !dup {
+				okSites[v], okHow[v] = core.InstrPos(in), "the reader removes non-candidate nodes elsewhere"
+			}
+			return st, c04Stop
+		}
+		failVia = v
+		return st, c04Fail
+	}
+	fail, _ := c04WalkInl(entry, 0, 0, func(w *c04Walker, in ssa.Instruction, st int) (int, int) {
+		switch x := in.(type) {
+		case ssa.CallInstruction:
+			cf := x.Common().StaticCallee()
+			if cf == e.addChild && c04IsLoadOf(x.Common().Args[0], r.cur) {
+				return judge(w, in, st)
+			}
+			if cf != nil && e.isMethodOf(r, cf) && w.canDescend(x) {
+				return st, c04Descend
+			}
+			if e.attachSite(r, in) || e.advanceSite(r, in) {
+				return judge(w, in, st)
+			}
+			if e.consumes(x) {
+				return st, c04Stop
+			}
+		case *ssa.Return, *ssa.Panic:
+			return st, c04Stop
+		}
+		return st, c04Cont
+	}, func(w *c04Walker, from *ssa.BasicBlock, succ int, st int) int {
+		if len(from.Instrs) == 0 {
+			return st
+		}
+		ifi, ok := from.Instrs[len(from.Instrs)-1].(*ssa.If)
+		if !ok {
+			return st
+		}
+		var isTok func(v ssa.Value) bool
+		isTok = func(v ssa.Value) bool {
+			if v == tokVal {
+				return true
+			}
+			if rv := w.resolve(v); rv != v {
+				return rv == tokVal || c04DependsOn(rv, isTok)
+			}
+			return false
+		}
+		if c04DependsOn(ifi.Cond, isTok) || c04DependsOn(ifi.Cond, func(x ssa.Value) bool { return c04IsLoadOf(x, r.holder) }) {
+			return st | guarded
+		}
+		return st
+	})
+	base := core.FuncKey(m) + " attaches encoding/xml.CharData text via "
+	if fail != nil {
+		c.Bad("R17e", base+failVia, core.InstrPos(fail), "character data is attached to the cursor unconditionally (no condition on the text or on the candidate holder, and the reader never removes non-candidate nodes): whitespace between records accumulates as text children of their parent")
+		return
+	}
+	var keys []string
+	for k := range okSites {
+		keys = append(keys, k)
+	}
+	sort.Strings(keys)
+	for _, k := range keys {
+		c.OK("R17e", base+k, okSites[k], okHow[k])
+	}
+	if len(keys) == 0 {
+		c.OK("R17e", core.FuncKey(m)+" case encoding/xml.CharData attaches nothing", core.InstrPos(ta), "no node is created for character data on any path")
 	}
 }
